@@ -127,7 +127,10 @@ func buildModel(l layout) *model {
 	return m
 }
 
-func buildInfo(l layout, m *model) []byte {
+func buildInfo(l layout, m *model) []byte { return buildInfoN(l, m, 0) }
+
+// buildInfoN: the info dictionary with extra (>0: surplus zero-data hashes, <0: missing) piece hashes.
+func buildInfoN(l layout, m *model, extra int) []byte {
 	var pieces []byte
 	for off := 0; off < len(m.A); off += int(l.PL) {
 		e := off + int(l.PL)
@@ -136,6 +139,13 @@ func buildInfo(l layout, m *model) []byte {
 		}
 		h := sha1.Sum(m.A[off:e])
 		pieces = append(pieces, h[:]...)
+	}
+	for ; extra > 0; extra-- {
+		h := sha1.Sum(nil)
+		pieces = append(pieces, h[:]...)
+	}
+	if extra < 0 && len(pieces) >= 20 {
+		pieces = pieces[:len(pieces)-20]
 	}
 	var files []any
 	for i, f := range l.Files {
@@ -182,6 +192,12 @@ func (c *checker) checkLayout(l layout, blockSizes []uint32, allReads bool) (acc
 	info, err := metainfo.NewInfo(infoB, true, true)
 	if err != nil {
 		return false // only layouts the client accepts are in scope
+	}
+	// the same files with one piece hash too many / too few do not tile: never accepted
+	for _, extra := range []int{1, -1} {
+		if bad, err := metainfo.NewInfo(buildInfoN(l, m, extra), true, true); err == nil {
+			c.fail("info.wrong-piece-count-accepted", l, "info dictionary with %+d piece hash(es) for these files is accepted (NumPieces=%d, Length=%d, piece length %d): the pieces do not tile the files", extra, bad.NumPieces, bad.Length, l.PL)
+		}
 	}
 	total := int64(len(m.A))
 	if info.Length != total {
